@@ -173,13 +173,14 @@ class Runtime:
         """
 
         try:
-            handler = self.handlers.get(type(request)) or _DEFAULT_HANDLERS[
-                type(request)
-            ]
-        except KeyError as e:
-            raise TypeError(
-                f"No handler for request type {type(request).__qualname__}"
-            ) from e
+            handler = self.handlers[type(request)]
+        except KeyError:
+            try:
+                handler = _DEFAULT_HANDLERS[type(request)]
+            except KeyError as e:
+                raise TypeError(
+                    f"No handler for request type {type(request).__qualname__}"
+                ) from e
 
         return handler(request)
 
